@@ -120,22 +120,30 @@ Definition rf_of_list (l : list N) : rfile :=
   mkrf (Z.of_nat (length l)) (fun i => nth (Z.to_nat i) l 0%N).
 
 (** ---- writeAt: one Twrite per chunk ---- *)
-Inductive wans := WCount (k : nat) | WErr (e : cerr).
-Record wstate := mkws { ws_file : rfile; ws_tape : list wans }.
+Inductive wans :=
+| WCount (k : nat)                      (* Rwrite count: k bytes stored (capped by the chunk) *)
+| WErr (e : cerr)                       (* an error, nothing stored *)
+| WErrStored (k : nat) (e : cerr).      (* the backend stored k bytes and then failed: the client sees only the error *)
+Record wstate := mkws { ws_file : rfile; ws_tape : list wans; ws_failed : bool (* a failing Twrite stored bytes *) }.
 
 Definition write_fn (p : list N) (st : wstate) (pos len : nat) (off : Z)
   : (nat * option cerr) * wstate :=
   let data := firstn len (skipn pos p) in
+  if ws_failed st then ((0, Some CConn), st)        (* never reached: chunk stops at the first error *)
+  else
   match ws_tape st with
-  | [] => ((length data, None), mkws (rf_store (ws_file st) off data) [])
+  | [] => ((length data, None), mkws (rf_store (ws_file st) off data) [] false)
   | WCount k :: t =>
       let d := firstn k data in
-      ((length d, None), mkws (rf_store (ws_file st) off d) t)
-  | WErr e :: t => ((0, Some e), mkws (ws_file st) t)
+      ((length d, None), mkws (rf_store (ws_file st) off d) t false)
+  | WErr e :: t => ((0, Some e), mkws (ws_file st) t false)
+  | WErrStored k e :: t =>
+      let d := firstn k data in
+      ((0, Some e), mkws (rf_store (ws_file st) off d) t (negb (length d =? 0)))
   end.
 
 Definition write_at (cs : nat) (p : list N) (off : Z) (f : rfile) (tape : list wans) :=
-  chunk (write_fn p) cs (mkws f tape) (length p) off.
+  chunk (write_fn p) cs (mkws f tape false) (length p) off.
 
 (** ---- readAt: one Tread per chunk; an empty Rread for a non-empty chunk is io.EOF ---- *)
 Inductive rans := RCount (k : nat) | RErr (e : cerr).
